@@ -263,6 +263,8 @@ def run(ctx):
     pick = sorted(rng.sample(range(len(cmds)), min(20, len(cmds))))
     _extract_agrees(ctx, [(cmds[i], outs[i]) for i in pick])
     for k, (case, p, known) in enumerate(meta):
+        if p["stream"] == "head-negative":
+            continue            # (no model: RHead takes a natural n; the oracle has compared the frame with flat[:n])
         mi = R.canon_model(outs[3 * k])
         ms = R.canon_model(outs[3 * k + 1])
         mp_ = R.rows_only(R.canon_model(outs[3 * k + 2]))
